@@ -131,6 +131,7 @@ type PreItem struct {
 	Syms    map[string]bool // all atoms mentioned
 	Trigger []string        // axiom: included when all of these symbols are in the query
 	Trusted string          // axiom: description for evidence (assumption)
+	OptIn   bool            // axiom: included only for functions whose contract lists it under "uses"
 	ArgS    []string        // declare/define: argument sorts
 	ResS    string
 	Order   int
@@ -194,6 +195,7 @@ func loadPrelude(dir string) (*Prelude, error) {
 					it.Name = pendingAx.Name
 					it.Trigger = pendingAx.Trigger
 					it.Trusted = pendingAx.Trusted
+					it.OptIn = pendingAx.OptIn
 					pendingAx = nil
 				}
 				order++
@@ -252,6 +254,9 @@ func loadPrelude(dir string) (*Prelude, error) {
 					if strings.HasPrefix(x, "trigger=") {
 						ax.Trigger = strings.Split(strings.TrimPrefix(x, "trigger="), ",")
 					}
+					if x == "optin" {
+						ax.OptIn = true
+					}
 				}
 				pendingAx = ax
 				continue
@@ -308,7 +313,7 @@ func classify(fm *Sexp) (*PreItem, error) {
 
 // selectPrelude returns the prelude text needed by a query mentioning syms,
 // and the names of the axioms included.
-func (p *Prelude) selectPrelude(syms map[string]bool) (string, []string) {
+func (p *Prelude) selectPrelude(syms map[string]bool, uses map[string]bool) (string, []string) {
 	have := map[string]bool{}
 	for s := range syms {
 		have[s] = true
@@ -322,6 +327,9 @@ func (p *Prelude) selectPrelude(syms map[string]bool) (string, []string) {
 				continue
 			}
 			take := false
+			if it.Kind == "axiom" && it.OptIn && !uses[it.Name] {
+				continue
+			}
 			if it.Kind == "axiom" {
 				trig := it.Trigger
 				if len(trig) == 0 {
